@@ -60,7 +60,7 @@ def connect_case(tree, st, dt, any_inputs, second_pair=False, cache=False):
         tsk = eng.choose(3, 'ts_kind')
         ts = [False, True, None][tsk]
         if ts is None:
-            ts = eng.int('k', 0)
+            ts = eng.int('k', 0, 3 if cache else None)   # with the cache on the delay becomes a dict key (concretised): keep it finite
         has_init = bool(eng.choose(2, 'initial'))
         outcome = None
         with sysrun.patched():
